@@ -1,4 +1,4 @@
-import PPLV.Watchdog.ProofsSafety3
+import PPLV.Watchdog.ProofsSafetyFire
 
 /-! `Safe` is preserved by every statement group (`step`). -/
 namespace PPLV.Watchdog
@@ -12,6 +12,31 @@ theorem safe_throwCtor {σ : St} (h : Safe σ) (id : Nat) : Safe (throwCtor σ i
   unfold throwCtor
   refine h1.move rfl rfl rfl h1.liveUsed (Or.inr ⟨_, rfl, neutral_simple.2.2.2.2.2.2.1 id⟩) ?_
   exact (pcOK_of (pc := .idle) rfl).mpr (by simp [PcOKAt])
+
+theorem safe_finish {σ : St} (h : Safe σ) (fin : Fin) (hfin : FinOK σ fin) : Safe (finish σ fin) := by
+  cases fin with
+  | ctor id =>
+    simp only [FinOK] at hfin
+    unfold finish
+    refine h.move rfl rfl rfl ?_ (Or.inr ⟨_, rfl, neutral_simple.2.2.2.2.2.2.2.1 _ _⟩) ?_
+    · intro i hi
+      rcases List.mem_cons.mp hi with hh | hh
+      · rw [hh]; exact hfin
+      · exact h.liveUsed i hh
+    · exact (pcOK_of (pc := .idle) rfl).mpr (by simp [PcOKAt])
+  | dtor id =>
+    simp only [FinOK] at hfin
+    unfold finish
+    refine h.logDestroyed id σ.now hfin.2 hfin.1 rfl rfl rfl h.liveUsed rfl ?_
+    exact (pcOK_of (pc := .idle) rfl).mpr (by simp [PcOKAt])
+
+theorem safe_leave {σ : St} (h : Safe σ) (fin : Fin) (hfin : FinOK σ fin) : Safe (leave σ fin) := by
+  unfold leave
+  split
+  · refine h.move rfl rfl rfl h.liveUsed (Or.inl rfl) ?_
+    exact (pcOK_of (pc := .l2 fin) rfl).mpr (by simp only [PcOKAt]; exact FinOK.mono hfin (fun _ x => x) (fun _ x => x))
+  · have h1 : Safe { σ with inCrit := false } := h.same rfl rfl rfl rfl rfl (Or.inl rfl)
+    exact safe_finish h1 fin (FinOK.mono hfin (fun _ x => x) (fun _ x => x))
 
 theorem safe_step (b : Bool) {σ : St} (h : Safe σ) : Safe (step b σ) := by
   have hpcok := h.pcOK
@@ -73,12 +98,7 @@ theorem safe_step (b : Bool) {σ : St} (h : Safe σ) : Safe (step b σ) := by
     rename_i id hpc
     have hp := (pcOK_of hpc).mp hpcok
     simp only [PcOKAt] at hp
-    refine h.move rfl rfl rfl ?_ (Or.inr ⟨_, rfl, neutral_simple.2.2.2.2.2.2.2.1 _ _⟩) ?_
-    · intro i hi
-      rcases List.mem_cons.mp hi with hh | hh
-      · rw [hh]; exact hp
-      · exact h.liveUsed i hh
-    · exact (pcOK_of (pc := .idle) rfl).mpr (by simp [PcOKAt])
+    exact safe_leave h (.ctor id) hp
   · -- d1
     rename_i id hpc
     have hp := (pcOK_of hpc).mp hpcok
@@ -154,7 +174,46 @@ theorem safe_step (b : Bool) {σ : St} (h : Safe σ) : Safe (step b σ) := by
     rename_i id hpc
     have hp := (pcOK_of hpc).mp hpcok
     simp only [PcOKAt] at hp
-    refine h.logDestroyed id σ.now hp.2 hp.1 rfl rfl rfl h.liveUsed rfl ?_
-    exact (pcOK_of (pc := .idle) rfl).mpr (by simp [PcOKAt])
+    exact safe_leave h (.dtor id) hp
+  · -- l2
+    rename_i fin hpc
+    have hp := (pcOK_of hpc).mp hpcok
+    simp only [PcOKAt] at hp
+    refine h.move rfl rfl rfl h.liveUsed (Or.inr ⟨_, rfl, neutral_simple.2.2.1 _⟩) ?_
+    exact (pcOK_of (pc := .l3 fin (getTimer σ)) rfl).mpr
+      (by simp only [PcOKAt]; exact FinOK.mono hp (fun _ x => x) (fun _ x => x))
+  · -- l3
+    rename_i fin tts hpc
+    have hp := (pcOK_of hpc).mp hpcok
+    simp only [PcOKAt] at hp
+    split
+    · have hb := safe_handlerBody b (some fin) h (by intro f hf; injection hf with hf; subst hf; exact hp)
+      simp only
+      split
+      · rename_i hsame
+        refine safe_finish hb fin ?_
+        have := hb.pcOK
+        unfold PcOK at this
+        rw [hsame, hpc] at this
+        simpa [PcOKAt] using this
+      · exact hb
+    · exact safe_finish h fin hp
+  · -- l4
+    rename_i fin hpc
+    have hp := (pcOK_of hpc).mp hpcok
+    simp only [PcOKAt] at hp
+    split
+    · refine h.move rfl rfl rfl h.liveUsed (Or.inr ⟨_, rfl, neutral_simple.1 _⟩) ?_
+      exact (pcOK_of (pc := .l5 fin) rfl).mpr
+        (by simp only [PcOKAt]; exact FinOK.mono hp (fun _ x => x) (fun _ x => x))
+    · have h1 : Safe { σ with log := Event.setfail :: σ.log } :=
+        h.same rfl rfl rfl rfl rfl (Or.inr ⟨_, rfl, neutral_simple.2.1⟩)
+      refine h1.move rfl rfl rfl h1.liveUsed (Or.inr ⟨_, rfl, neutral_simple.2.2.2.2.2.1⟩) ?_
+      exact (pcOK_of (pc := .idle) rfl).mpr (by simp [PcOKAt])
+  · -- l5
+    rename_i fin hpc
+    have hp := (pcOK_of hpc).mp hpcok
+    simp only [PcOKAt] at hp
+    exact safe_finish h fin hp
 
 end PPLV.Watchdog
